@@ -111,7 +111,9 @@ func (s *Server) handleService(ctx context.Context, sc *uasc.SecureChannel, reqI
 	typeID := ua.ServiceTypeID(req)
 	h, ok := s.handlers[typeID]
 	if ok {
-		resp, err = h(sc, req, reqID)
+		if err = s.checkSession(typeID, req); err == nil {
+			resp, err = h(sc, req, reqID)
+		}
 	} else {
 		if typeID == 0 {
 			if s.cfg.logger != nil {
@@ -139,6 +141,44 @@ func (s *Server) handleService(ctx context.Context, sc *uasc.SecureChannel, reqI
 			s.cfg.logger.Warn("Error sending response: %s\n", err)
 		}
 	}
+}
+
+// sessionRequired reports whether a service is only served to an activated session.
+// Discovery does not need a session, and the services which set a session up and
+// tear it down look up the session named by the request on their own.
+func sessionRequired(typeID uint16) bool {
+	switch typeID {
+	case id.FindServersRequest_Encoding_DefaultBinary,
+		id.FindServersOnNetworkRequest_Encoding_DefaultBinary,
+		id.GetEndpointsRequest_Encoding_DefaultBinary,
+		id.RegisterServerRequest_Encoding_DefaultBinary,
+		id.RegisterServer2Request_Encoding_DefaultBinary,
+		id.CreateSessionRequest_Encoding_DefaultBinary,
+		id.ActivateSessionRequest_Encoding_DefaultBinary,
+		id.CloseSessionRequest_Encoding_DefaultBinary:
+		return false
+	}
+	return true
+}
+
+// checkSession returns an error if the service needs an activated session and
+// the authentication token of the request does not name one.
+func (s *Server) checkSession(typeID uint16, req ua.Request) error {
+	if !sessionRequired(typeID) {
+		return nil
+	}
+	hdr := req.Header()
+	if hdr == nil || hdr.AuthenticationToken == nil {
+		return ua.StatusBadSessionIDInvalid
+	}
+	sess, activated := s.sb.Activated(hdr.AuthenticationToken)
+	switch {
+	case sess == nil:
+		return ua.StatusBadSessionIDInvalid
+	case !activated:
+		return ua.StatusBadSessionNotActivated
+	}
+	return nil
 }
 
 func responseHeader(reqID uint32, statusCode ua.StatusCode) *ua.ResponseHeader {
